@@ -66,6 +66,22 @@ def run(repo: Repo, rep: Report, tier: str) -> None:
     must(lambda s: isinstance(s, ast.For) and "_read_sources" in norm(s.iter) and any(isinstance(x, ast.Call) and call_name(x) == "set_source" and ARITH in copt.text(x.args[1]) for x in ast.walk(s))
          and any(isinstance(x, ast.Compare) and "op.memory_id" in norm(x) for x in ast.walk(s)), "every recorded read of this cell is re-pointed at the arithmetic node")
     must(lambda s: isinstance(s, ast.Assign) and norm(s.targets[0]) == "module.output_node_id" and ARITH in copt.text(s.value), "later reads are served by the arithmetic node (output_node_id)")
+    # set_source appends: the removed gates stay producers of the cell and of its earlier reads unless the old list is emptied first
+    ss = repo.func("SignalGraph.set_source")
+    appends = any(isinstance(x, ast.Call) and call_name(x) == "append" for x in walk_local(ss.node)) and not any(
+        isinstance(x, ast.Assign) and isinstance(x.targets[0], ast.Subscript) and "_sources" in norm(x.targets[0].value) for x in walk_local(ss.node))
+    rep.analysed["C04-R2:set_source appends to the producer list"] = appends
+    if appends:
+        def _clears_cell(s):
+            return isinstance(s, ast.Assign) and isinstance(s.targets[0], ast.Subscript) and norm(s.targets[0]) == "signal_graph._sources[op.memory_id]" and norm(s.value) == "[]"
+        # either the store itself, or the store under the only guard that leaves nothing to clear (`op.memory_id in signal_graph._sources`)
+        must(lambda s: _clears_cell(s) and not any(isinstance(p_, ast.If) and any(x is s for x in p_.body) for p_ in walk_local(opt.node))
+             or (isinstance(s, ast.If) and norm(s.test) == "op.memory_id in signal_graph._sources" and any(_clears_cell(x) for x in s.body)),
+             "the cell's old producers (the removed gates) are dropped before the arithmetic node is added")
+        must(lambda s: isinstance(s, ast.For) and "_read_sources" in norm(s.iter) and any(
+                 isinstance(x, ast.Assign) and isinstance(x.targets[0], ast.Subscript) and norm(x.targets[0].value) == "signal_graph._sources" and norm(x.value) == "[]"
+                 and copt.text(x.targets[0].slice).startswith("ELEM(self._read_sources.items())") for x in ast.walk(s)),
+             "the old producers of every earlier read of the cell are dropped before the arithmetic node is added")
     hr = mb.methods["handle_read"]
     chr_ = canon(hr)
     ok = any(isinstance(n, ast.If) and "arithmetic_feedback" in norm(n.test) and any(isinstance(x, ast.Call) and call_name(x) == "set_source" and chr_.text(x.args[1]).endswith(".output_node_id") and "self._modules" in chr_.text(x.args[1]) for x in ast.walk(n)) for n in walk_local(hr.node))
@@ -74,7 +90,7 @@ def run(repo: Repo, rep: Report, tier: str) -> None:
     rep.check(bool(rec) and norm(rec[0].value) == "op.memory_id", "C04-R2", "every read is recorded under its memory id before any early return", norm(rec[0]) if rec else "", hr.loc())
 
     from .shared import reads_repointed_only_for_own_cell
-    reads_repointed_only_for_own_cell(repo, rep, "C04-R2")
+    reads_repointed_only_for_own_cell(repo, rep, "C04-R2", absent_is="violation")
 
     # ---------------- R3 ---------------------------------------------------------------
     rep.rule("C04-R3", "single-node case: has_self_feedback/feedback_signal are written and read by a function that adds an output->input self-connection whose colour equals the colour locked "
